@@ -99,7 +99,8 @@ func runC10(p *core.Prog, r *core.Result) {
 		"R10.1 every resolver cache is keyed by everything its cached value is computed from (path and version where both matter), so the answer cannot depend on what an earlier query left in the cache",
 		"R10.2 the version order handed to the MVS library: Max returns one of its two arguments as decided by cmpVersion, which ranks the root's empty version above every other before delegating to semver; Required answers the root's list exactly for the empty path",
 		"R10.3 the build list handed back to dawn contains every element the MVS library returned",
-		"R10.4 ordered results built from Go-map iteration inside internal/mvs are sorted before use or are order-insensitive",
+		"R10.4 ordered results built from Go-map iteration inside internal/mvs are sorted before use or are order-insensitive; no map is folded into another under a colliding key",
+		"R10.5 a fetched project's summary lists every requirement of its configuration, one to one, in sorted name order",
 	}
 	r.NotDecided = []string{"that the result is the minimal-version-selection solution for all graphs (the algorithm lives in github.com/pgavlin/mvs, outside the repository; behavioural)", "network/VCS behaviour behind the resolver"}
 	// ---- R10.1
@@ -344,6 +345,57 @@ func runC10(p *core.Prog, r *core.Result) {
 		}
 	}
 
+	// ---- R10.5 a fetched project's summary lists every requirement of its configuration
+	if rp := need(p, r, "R10.5", "internal/mvs", "Resolver", "resolveProject"); rp != nil {
+		ok := false
+		var at ssa.Instruction
+		core.Instrs(rp, func(in ssa.Instruction) {
+			st, isSt := in.(*ssa.Store)
+			if !isSt || !core.IsField(st.Addr, pkgMvs, "mvsProject", "Requirements") {
+				return
+			}
+			at = st
+			// the stored slice is grown by append inside a loop over slices.Sorted(maps.Keys(config.Requirements))
+			for v := range core.BackwardSlice(st.Val, core.SliceOpts{}) {
+				c, isC := v.(*ssa.Call)
+				if !isC {
+					continue
+				}
+				if b, isB := c.Call.Value.(*ssa.Builtin); !isB || b.Name() != "append" {
+					continue
+				}
+				// the appended element reads config.Requirements[name] with name = sortedKeys[idx], idx covering all keys
+				var elemLookup *ssa.Lookup
+				for x := range core.BackwardSlice(c.Call.Args[1], core.SliceOpts{Stores: true}) {
+					if lk, isLk := x.(*ssa.Lookup); isLk && core.LoadOfField(lk.X, pkgProj, "Config", "Requirements") {
+						elemLookup = lk
+					}
+				}
+				if elemLookup == nil {
+					continue
+				}
+				ia := nearestIndexAddr(elemLookup.Index)
+				if ia == nil {
+					continue
+				}
+				fromSortedKeys := core.DependsOn(ia.X, core.SliceOpts{ThroughCall: func(*ssa.Call) bool { return true }}, func(x ssa.Value) bool {
+					return core.LoadOfField(x, pkgProj, "Config", "Requirements")
+				}) && core.DependsOn(ia.X, core.SliceOpts{}, func(x ssa.Value) bool {
+					cc, isCC := x.(*ssa.Call)
+					return isCC && core.Callee(cc) != nil && strings.HasPrefix(core.CalleeKey(core.Callee(cc)), "slices.Sort")
+				})
+				if fromSortedKeys && p.LoopIndexCoversAll(ia.Index, ia.X, c, func(a, b ssa.Value) bool { return a == b }) && c.Block() == ia.Block() {
+					ok = true
+				}
+			}
+		})
+		if at == nil {
+			r.Unk("R10.5", "internal/mvs.(*Resolver).resolveProject#summary", p.Pos(rp.Pos()), "store of mvsProject.Requirements not found")
+		} else {
+			r.Check(ok, "R10.5", "internal/mvs.(*Resolver).resolveProject#all-requirements", p.InstrPos(at), "the summary's requirement list has one entry per requirement of the fetched configuration, in sorted name order", "the summary's requirement list is not built one-to-one from the configuration's requirements in sorted order: requirement edges can be merged or dropped, and projects reachable only through them vanish from the build list")
+		}
+	}
+
 	// ---- R10.4
 	nR := 0
 	for _, fn := range p.ModuleFuncs() {
@@ -361,6 +413,10 @@ func runC10(p *core.Prog, r *core.Result) {
 			nR++
 			ordered, sorted := mapRangeOrderedSink(fn, rg)
 			construct := fmt.Sprintf("%s#map-range-%d", fname(fn), nR)
+			if lossy := mapRangeLossyUpdate(fn, rg); lossy != nil {
+				r.Bad("R10.4", construct, p.InstrPos(lossy), "entries of a map are folded into another map under a key that is not the iteration key: when two entries collide, Go's map iteration order decides which one survives, so the requirement graph (and the build list) varies from run to run")
+				return
+			}
 			switch {
 			case !ordered:
 				r.OK("R10.4", construct, p.InstrPos(rg), "order-insensitive")
@@ -705,4 +761,47 @@ func nearestIndexAddr(v ssa.Value) *ssa.IndexAddr {
 		}
 	}
 	return nil
+}
+
+// mapRangeLossyUpdate: inside the loop over rg, is another map updated under a key that is not the iteration key?
+func mapRangeLossyUpdate(f *ssa.Function, rg *ssa.Range) ssa.Instruction {
+	var next *ssa.Next
+	for _, ref := range *rg.Referrers() {
+		if n, ok := ref.(*ssa.Next); ok {
+			next = n
+		}
+	}
+	if next == nil {
+		return nil
+	}
+	var keyV ssa.Value
+	for _, ref := range *next.Referrers() {
+		if e, ok := ref.(*ssa.Extract); ok && e.Index == 1 {
+			keyV = e
+		}
+	}
+	hb := next.Block()
+	var out ssa.Instruction
+	for _, b := range f.Blocks {
+		if !(core.Reaches(hb, b, true) && core.Reaches(b, hb, true)) {
+			continue
+		}
+		for _, in := range b.Instrs {
+			mu, ok := in.(*ssa.MapUpdate)
+			if !ok || mu.Map == rg.X {
+				continue
+			}
+			if keyV != nil && core.Unwrap(mu.Key) == keyV {
+				continue // re-keyed by the same (unique) key: no collisions
+			}
+			// appending to a per-key slice (m[k] = append(m[k], v)) keeps every entry: order-sensitive but not lossy
+			if c, ok := mu.Value.(*ssa.Call); ok {
+				if bi, ok := c.Call.Value.(*ssa.Builtin); ok && bi.Name() == "append" {
+					continue
+				}
+			}
+			out = mu
+		}
+	}
+	return out
 }
